@@ -94,6 +94,7 @@ impl<T> Channel<T> {
 fn drain_closure<C: FnMut(Event<T>, &mut ())>(capacity: usize, receiver: &mpsc::Receiver<T>, mut callback: C) -> (r: (bool, bool))
 //@ spec
     requires
+        may_recv(receiver),
         // C04: the callback is callable ONLY with a message that try_recv has just handed out (nothing is made up,
         // nothing can be delivered twice: T is not Clone here), and with Closed ONLY once the queue reported that
         // every sender is gone
@@ -117,7 +118,7 @@ fn drain_closure<C: FnMut(Event<T>, &mut ())>(capacity: usize, receiver: &mpsc::
             !clear_readiness, !disconnected,
             lit.index@ > 0 ==> exists|v: T| #[trigger] w_received(receiver, v),
         invariant
-            max >= 1,
+            max >= 1, may_recv(receiver),
             forall|e: Event<T>, m: &mut ()| #[trigger] call_requires(callback, (e, m)) <==> match e {
                 Event::Msg(v) => w_received(receiver, v),
                 Event::Closed => w_disconnected(receiver),
